@@ -58,16 +58,22 @@ def runeOffsetAux : Nat → Bytes → Nat → Nat → Nat
 /-- byte offset of the `k`-th rune boundary of `s` (k ≤ number of runes) -/
 def runeOffset (s : Bytes) (k : Nat) : Nat := runeOffsetAux (s.length + 1) s k 0
 
-def sliceArr (vs : List JV) (e s : JV) : NRes := do
-  let (a, b) ← sliceBounds vs.length e s (fun x => .builtin "arrayIndexNotNumber" [x])
-  pure (.arr ((vs.drop a).take (b - a)))
+/-- `slice(vs, e, s)`: `vs[start:end]` -/
+def sliceArr (vs : List JV) (e s : JV) : NRes :=
+  match sliceBounds vs.length e s (fun x => .builtin "arrayIndexNotNumber" [x]) with
+  | .error err => .error err
+  | .ok ab => .ok (.arr ((vs.drop ab.1).take (ab.2 - ab.1)))
 
-def sliceStr (str : Bytes) (e s : JV) : NRes := do
-  let l := (Utf8.runes str).length
-  let (a, b) ← sliceBounds l e s (fun x => .builtin "stringIndexNotNumber" [x])
-  let sa := if a < l then runeOffset str a else str.length
-  let sb := if b < l then runeOffset str b else str.length
-  pure (.str ((str.drop sa).take (sb - sa)))
+/-- the byte offset `sliceString` turns a code point position into: the offset of the `k`-th
+    code point while `k < l`, else `len(v)` -/
+def byteOffset (str : Bytes) (k : Nat) : Nat :=
+  if k < (Utf8.runes str).length then runeOffset str k else str.length
+
+/-- `sliceString(v, e, s)`: positions count code points, the result is `v[start:end]` on bytes -/
+def sliceStr (str : Bytes) (e s : JV) : NRes :=
+  match sliceBounds (Utf8.runes str).length e s (fun x => .builtin "stringIndexNotNumber" [x]) with
+  | .error err => .error err
+  | .ok ab => .ok (.str ((str.drop (byteOffset str ab.1)).take (byteOffset str ab.2 - byteOffset str ab.1)))
 
 /-- `funcSlice(_, v, e, s)` -/
 def funcSlice (v e s : JV) : NRes :=
